@@ -503,7 +503,12 @@ def evaluate__ceiling_and_floor_functions(self: XPathFunction, context: ta.Conte
             return arg
 
         assert isinstance(arg, (int, float, decimal.Decimal))
-        if self.symbol == 'floor':
+        if isinstance(arg, float):
+            # the result keeps the sign of the argument, also when it's a zero:
+            # floor(-0.0e0) and ceiling(-0.5e0) are negative zero
+            value = math.floor(arg) if self.symbol == 'floor' else math.ceil(arg)
+            return type(arg)(math.copysign(value, arg))
+        elif self.symbol == 'floor':
             return type(arg)(math.floor(arg))
         else:
             return type(arg)(math.ceil(arg))
